@@ -397,7 +397,8 @@ class LP_Solver:
             if (hasattr(pair, 'rank_lecturer')):
               sum_costs_exp += pair.lp_var * pair.rank_lecturer * lecturer_multiplier
         self.prob += (sum_costs_exp == obj)
-        self.perform_optimisation(obj, Optimisation_type.MINIMISE)
+        self.perform_optimisation(
+            obj, Optimisation_type.MINIMISE, sum_costs_exp)
 
 
     def optimisation_minsqcost(self, cost_multipliers):
@@ -420,7 +421,8 @@ class LP_Solver:
             if (hasattr(pair, 'rank_lecturer')):
               sum_costs_exp += pair.lp_var * pair.rank_lecturer**2 * lecturer_multiplier
         self.prob += (sum_costs_exp == obj)
-        self.perform_optimisation(obj, Optimisation_type.MINIMISE)
+        self.perform_optimisation(
+            obj, Optimisation_type.MINIMISE, sum_costs_exp)
 
 
     def optimisation_mincostlsb(self, cost_multipliers):
@@ -444,7 +446,8 @@ class LP_Solver:
         # Costs for lecturers (lecturer load vs target differences)
         sum_costs_exp += lpSum(self.model.abs_lec_diff) * lecturer_multiplier
         self.prob += (sum_costs_exp == obj)
-        self.perform_optimisation(obj, Optimisation_type.MINIMISE)
+        self.perform_optimisation(
+            obj, Optimisation_type.MINIMISE, sum_costs_exp)
 
 
     def optimisation_loadmaxbal(self):
@@ -502,12 +505,15 @@ class LP_Solver:
         return all_vars
 
 
-    def perform_optimisation(self, objective_function, optimisation_type):
+    def perform_optimisation(
+        self, objective_function, optimisation_type, expression=None):
         '''Either maximises or minimises the given objective function.
         
         Args: 
             objective_function: The objective function.
             optimisation_type: Enum indicating whether to maximise or minimise.
+            expression: The expression the objective function is constrained
+              to equal, if its value may be large (see get_solved_value).
 
         '''
 
@@ -516,10 +522,35 @@ class LP_Solver:
             self.prob.objective = objective_function
             self.prob.solve(self.solver)
             # add the constraint
-            self.prob += objective_function >= objective_function.varValue
+            self.prob += objective_function >= self.get_solved_value(
+                objective_function, expression)
 
         elif optimisation_type == Optimisation_type.MINIMISE:
             self.prob.objective = -1 * objective_function
             self.prob.solve(self.solver)
             # add the constraint
-            self.prob += objective_function <= objective_function.varValue
+            self.prob += objective_function <= self.get_solved_value(
+                objective_function, expression)
+
+
+    def get_solved_value(self, objective_function, expression):
+        '''Returns the value at which a solved objective function is fixed.
+
+        The solver reports values with 8 significant digits, so a large value 
+        of the objective function (possible with large cost multipliers) comes 
+        back rounded. After an optimal solve it is therefore recomputed from 
+        the (small) values of the variables of the given expression.
+
+        Args: 
+            objective_function: The objective function.
+            expression: The expression it is constrained to equal, or None.
+
+        Returns:
+            The value of the objective function.
+        '''
+
+        if expression is not None and self.prob.status == LpStatusOptimal:
+            exact_value = value(expression)
+            if exact_value is not None:
+                return int(round(exact_value))
+        return objective_function.varValue
